@@ -290,3 +290,58 @@ def replay_h_writer_convert_ints(iv, it):
         return False, "values and statistics exact"
     finally:
         shutil.rmtree(d, ignore_errors=True)
+
+
+# ------------------------------------------------------------------ a chunk's text bound as the pruning pass sees it ---
+import fastparquet.encoding as enc_mod
+
+TEXTS2 = ["ab", "ab\x00", "ab ", "a\x00b", "\x00", "é\x00", "ab\x00\x00"]
+
+
+def h_stat_bound_decodes(i: int, utf: bool) -> bool:
+    """
+    pre: 0 <= i < 7
+    post: __return__
+    """
+    # filter_out_stats decodes a stored min/max with encoding.read_plain(bytes, type, 1, stat=True) and, for annotated
+    # columns, converted_types.convert: the value compared with the filter constant is the stored text / bytes, every
+    # byte of it (a trailing NUL included)
+    t = TEXTS2[_pick(i, 0, 6)]
+    raw = t.encode("utf8")
+
+    def run():
+        se = parquet_thrift.SchemaElement(name="x", type=parquet_thrift.Type.BYTE_ARRAY,
+                                          converted_type=CT.UTF8 if utf else None)
+        v = enc_mod.read_plain(raw, parquet_thrift.Type.BYTE_ARRAY, 1, stat=True)
+        if se.converted_type is not None:
+            v = ct.convert(v, se)
+        got = v[0]
+        return (got == t and isinstance(got, str)) if utf else (bytes(got) == raw and len(got) == len(raw))
+    return _untraced(run)
+
+
+def replay_h_stat_bound_decodes(i, utf):
+    import os, shutil, tempfile
+    import fastparquet
+    t = TEXTS2[i]
+    const = t.rstrip("\x00") if t.endswith("\x00") else t[:-1]
+    if "\x00" in const:
+        # (row-level comparison with a constant that itself holds a NUL goes through numpy's fixed-width strings and
+        # is a separate matter)
+        return None, "no NUL-free filter constant below this bound"
+    d = tempfile.mkdtemp(prefix="c13-")
+    try:
+        fn = os.path.join(d, "t.parq")
+        vals = ["", t] if utf else [b"", t.encode()]
+        fastparquet.write(fn, pd.DataFrame({"x": vals, "k": [1, 2]}), stats=True,
+                          object_encoding={"x": "utf8" if utf else "bytes"})
+        pf = fastparquet.ParquetFile(fn)
+        c = const if utf else const.encode()
+        out = pf.to_pandas(filters=[("x", ">", c)], row_filter=True)
+        want = [k for k, v in zip([1, 2], vals) if v > c]
+        if list(out["k"]) != want:
+            return True, "column holding %r (statistics on): filter x > %r keeps rows k=%r, rows k=%r satisfy it" % (
+                vals, c, list(out["k"]), want)
+        return False, "bound decoded in full"
+    finally:
+        shutil.rmtree(d, ignore_errors=True)
